@@ -88,7 +88,7 @@ def dump(t):
     if k == "idx":
         return "(idx %s %s)" % (dump(t[1]), dump(t[2]))
     if k == "dot":
-        return "(in %s %s (str %s))" % (hx("."), dump(t[1]), hx(t[2]))
+        return "(in %s %s (id %s))" % (hx("."), dump(t[1]), hx(t[2]))      # the member name stays the identifier that was written (D39 repaired)
     if k == "call":
         return "(call (id %s)%s)" % (hx(t[1]), "".join(" " + dump(a) for a in t[2]))
     if k == "tern":
